@@ -268,6 +268,13 @@ impl Hist {
 
 	/// Build (and register) a block on `parent` from `txs`; judged by the reference.
 	pub fn add_block(&mut self, parent: &Hash, txs: &[Transaction], class: &str, tags: Vec<String>) -> GenBlock {
+		self.add_block_ex(parent, txs, class, tags, false)
+	}
+
+	/// As `add_block`; with `mislabel` the block's inputs are (features, commitment) pairs and the first one
+	/// claims the wrong features for the output it spends (everything else, including every header
+	/// commitment, is what an honest node computes).
+	pub fn add_block_ex(&mut self, parent: &Hash, txs: &[Transaction], class: &str, tags: Vec<String>, mislabel: bool) -> GenBlock {
 		let mut tags = tags;
 		let mut tags_v2 = false;
 		let mode = self.mode(parent);
@@ -280,7 +287,16 @@ impl Hist {
 			.make_block(&self.world.clone(), &mut p, parent, txs, &k, mode, ts)
 			.expect("make_block");
 		let mut b = b;
-		if self.v2_inputs && b.hash().as_bytes()[7] & 1 == 1 && self.to_v2_inputs(&mut b) {
+		if mislabel {
+			use grin_core::core::{Inputs, OutputFeatures};
+			if self.to_v2_inputs(&mut b) {
+				if let Inputs::FeaturesAndCommit(ref mut v) = b.body.inputs {
+					v[0].features = if v[0].features == OutputFeatures::Coinbase { OutputFeatures::Plain } else { OutputFeatures::Coinbase };
+					v.sort_unstable();
+				}
+				tags_v2 = true;
+			}
+		} else if self.v2_inputs && b.hash().as_bytes()[7] & 1 == 1 && self.to_v2_inputs(&mut b) {
 			// the ledger keeps the block it was given at make_block time; only the encoding of the inputs differs
 			tags_v2 = true;
 		}
@@ -346,7 +362,19 @@ impl Hist {
 	/// Forged block violating exactly one UTXO rule (header commitments as an
 	/// honest node would compute them if the spend were legal).
 	pub fn invalid_block(&mut self, parent: &Hash, kind: usize) -> Option<GenBlock> {
-		match kind % 4 {
+		match kind % 5 {
+			4 => {
+				// the input names the right commitment with the wrong features: it names no existing output
+				let c = self.spendable(parent).first()?.clone();
+				let tx = self.spend_tx(&[c], 1, None);
+				let gb = self.add_block_ex(parent, &[tx], "input_features_mislabelled", vec![], true);
+				if gb.verdict.is_ok() {
+					// could not be re-encoded: not the forged block we wanted
+					self.blocks.pop();
+					return None;
+				}
+				Some(gb)
+			}
 			0 => {
 				// double spend: input already spent on this ancestry
 				let spent = self.spent_coins(parent);
